@@ -2,6 +2,7 @@
 // transcribed from the statements of C01-C06, C13-C15.  Callee contracts: range::parse (unit `range`),
 // parse_modified_hdrs (unit `cond`), etag::strong_eq (unit `etag`), ExactLenStream::new / MultipartStream::new
 // (unit `streams`).  Bodies are spliced in from /repo by lib/extract.py.
+#![feature(allocator_api)]
 use vstd::prelude::*;
 use std::ops::Range;
 //@include prelude/glue.rs
